@@ -656,8 +656,15 @@ def run_scenario(case: dict, choices: List[int]) -> _Run:
     ctx = _Ctx(with_client=(mode != "local"))
     run.ctx = ctx
     with _installed(ctx):
-        mpu = _mpu_cls()(BUCKET, KEY)
         kw = {"ContentType": "image/tiff"}
+        if case.get("stale") and mode != "local":
+            # history: an earlier upload of the same object on this cluster was abandoned before finalise/cleanup, so
+            # its shared variable still holds the old upload id when the new writer is prepared
+            from odc.geo.cog import _s3 as S3
+
+            old = S3.DelayedS3Writer(_mpu_cls()(BUCKET, KEY), kw)
+            ctx.vars[old._build_name("MPUpload")] = "abandoned-upload-id"
+        mpu = _mpu_cls()(BUCKET, KEY)
         if mode != "local" and case.get("explicit_client", True):
             w0 = mpu.writer(kw, client=ctx.client)
         else:
@@ -841,7 +848,8 @@ def s_sched(draw):
     else:
         runs = draw(st.lists(st.tuples(st.integers(0, 5), st.integers(1, 8)), max_size=14))
         choices = [c for c, n in runs for _ in range(n)]
-    return {"mode": mode, "share": share, "writes": writes, "fin": fin, "explicit_client": explicit, "choices": choices}
+    return {"mode": mode, "share": share, "writes": writes, "fin": fin, "explicit_client": explicit, "choices": choices,
+            "stale": mode != "local" and draw(st.integers(0, 3)) == 0}
 
 
 def o_sched(case, T):
@@ -850,6 +858,8 @@ def o_sched(case, T):
         return
     _classify(case, run, T)
     T.cls("mode_" + case["mode"])
+    if case.get("stale"):
+        T.cls("stale_shared_variable_from_abandoned_upload")
     T.cls("workers_%d" % len(case["share"]))
     T.cls("fin_none" if case["fin"] < 0 else ("fin_fresh" if case["fin"] >= len(case["share"]) else "fin_worker"))
 
